@@ -80,6 +80,7 @@ Obs(s) ==
   LET e == Line.ev IN
   CASE e = "Launch" -> {t \in DoLaunch(s) : t.active = Line.active /\ Line.ok}
     [] e = "Req" -> IF Inst(s) = Line.inst /\ s.cnt[Line.r] + 1 = Line.nth /\ s.active = Line.delivered
+                         /\ Line.late = HasTerminal(s.sent)
                       THEN DoReq(s, Line.r) ELSE {}
     [] e = "Release" -> DoRelease(s)
     [] e = "Status" -> ObsStatus(s)
@@ -98,8 +99,8 @@ NextCands == UNION {Obs(s) : s \in Closure(cands)}
 
 (* ----- the monitor: property formulas on recorded facts ----- *)
 IsDeliveredReq == Line.ev = "Req" /\ Line.delivered
-ReqRec == [r |-> Line.r, inst |-> Line.inst, nth |-> Line.nth]
-Blame(q, site) == <<q.r, q.inst, q.nth, site>>
+ReqRec == [r |-> Line.r, inst |-> Line.inst, nth |-> Line.nth, late |-> Line.late]
+Blame(q, site) == <<q.r, q.inst, q.nth, site, q.late>>
 
 MonitorStep ==
   LET sent2 == IF Line.ev = "Status" THEN Append(msent, Short(Line.state)) ELSE msent
